@@ -2,7 +2,9 @@ package c04
 
 import (
 	"fmt"
+	"os"
 	"testing"
+	"time"
 
 	"github.com/insomniacslk/dhcp/dhcpv4"
 	"verif/harness/gen4"
@@ -27,6 +29,7 @@ var header = func() []byte {
 }()
 
 func judge(r *mon.Rec, src string, b []byte) {
+	r.Current(map[string]any{"wire": mon.HexBytes(b), "src": src})
 	r.Eval(1)
 	e, ok, why := ref4.Decode(b)
 	var q *dhcpv4.DHCPv4
@@ -86,6 +89,9 @@ var alphabet = []byte{0, 1, 2, 3, 53, 61, 82, 255}
 func TestCheck(t *testing.T) {
 	r := mon.New("C04")
 	defer r.Flush()
+	if os.Getenv("VERIF_REPLAY") == "" {
+		r.Watchdog(60 * time.Second)
+	}
 	var rp replay
 	if mon.ReplayCase(&rp) {
 		judge(r, "replay", mon.UnHex(rp.Wire))
